@@ -17,6 +17,18 @@ CHECKS = {
         note="Trusted: Coq kernel + vm_compute; harness/tools as test equipment; header block < 2^31 bytes; Go map order treated as arbitrary.",
         technique="Coq proof (round-trip by induction) + vm_compute trace-validation judge against the Go/Python codecs",
         design="5/C04"),
+    "C05": dict(
+        text="Coq theorems: both header parsers, ExecuteFrame and ReadRequestHeader are graceful (value or error, never a Go "
+             "slice/makeslice panic, never out of fuel) on EVERY byte string below 2 GiB; each message-oriented receiver loop "
+             "(NATS inbox, NATS server worker, NATS/STOMP scope subscriber, HTTP handler) never exits or crashes and judges each "
+             "message on its own; the adapter read loop always ends in a closed state. The models keep Go's partiality explicit "
+             "(Panic results for out-of-range slices), so totality is a real theorem about the bounds checks. Tied to the code by "
+             "a correspondence check that feeds boundary-value, exhaustive-small and mutated inputs to every real entry point "
+             "(embedded NATS/STOMP brokers, httptest, net.Pipe) and replays them on the model; partial: the Thrift layer under "
+             "the header is a parameter assumed graceful.",
+        note="Trusted: Coq kernel + vm_compute; harness as test equipment; Apache Thrift readers assumed graceful (exercised only); messages < 2^31 bytes.",
+        technique="Coq totality proofs over a Go-partiality model + vm_compute trace-validation judge on all receiving entry points",
+        design="5/C05"),
 }
 
 NOT_YET = "check not built yet in this round; design in DESIGN.md section 5"
